@@ -410,7 +410,7 @@ Section Proofs.
     destruct (nth_error relevant r) as [j|] eqn:Ej; [|discriminate H].
     destruct (nth_error avail i) as [ui|]; [|discriminate H].
     destruct (nth_error avail j) as [uj|]; [|discriminate H].
-    destruct (3 * by_or_zero sel (o_val o) <? two64); [|discriminate H].
+    cbn [v_exact_improve current orb] in H.
     match type of H with (if ?c then _ else _) = _ => destruct c end.
     2: { inversion H; subst. exact Hj. }
     cbn [v_swap_fixed current] in H. inversion H; subst i' rel' aset' cs'; clear H.
